@@ -36,6 +36,7 @@ func tv(s string) atrun.Arg   { return atrun.Arg{T: "time", V: s} }
 func bv(hex string) atrun.Arg { return atrun.Arg{T: "bytes", V: hex} }
 
 type sgen struct {
+	faults   bool // arm database faults at operations of segments without a global transaction
 	noInterp bool // DSN without interpolateParams: bound arguments reach the target as driver.ErrSkip + prepared statement
 	noNow    bool // programs with a global transaction: the AT proxy reads the server clock too (undo_log), so now() values differ
 	r        *hutil.Rng
@@ -262,6 +263,22 @@ func (g *sgen) outsideOps(n int) []Op {
 			ops = append(ops, Op{K: k, Conn: c})
 		}
 	}
+	if g.faults {
+		// database faults at the operation's own call, the same in the proxied and the bare run
+		for i := range ops {
+			den := 9
+			if ops[i].K == "commit" {
+				den = 3
+			}
+			if r.Chance(1, den) {
+				f := &OpFault{Action: []string{"error", "error", "after", "drop"}[r.Intn(4)]}
+				if ops[i].K == "stmt" && r.Chance(1, 3) {
+					f.Skip = 1
+				}
+				ops[i].Fault = f
+			}
+		}
+	}
 	return ops
 }
 
@@ -277,6 +294,8 @@ func (g *sgen) insideOps(n int) []Op {
 	}
 	special := func(o Op, localTx bool) Op {
 		switch {
+		case o.Query && r.Chance(1, 3):
+			o.Prepared = true // prepared queries (plain and locking reads): Stmt.QueryContext
 		case r.Chance(1, 12) && (strings.HasPrefix(o.SQL, "UPDATE") || strings.HasPrefix(o.SQL, "DELETE")):
 			o.Prepared = true // finding region stmt.prepared-in-gtx
 		case r.Chance(1, 14):
@@ -295,11 +314,8 @@ func (g *sgen) insideOps(n int) []Op {
 					o = g.sel(false)
 				}
 			}
-			if strings.Contains(o.SQL, "FOR UPDATE") && len(o.Args) > 0 {
-				o = g.sel(false)
-			}
 		}
-		if !o.Plain && localTx && strings.Contains(o.SQL, "FOR UPDATE") {
+		if !o.Plain && localTx && strings.Contains(o.SQL, "FOR UPDATE") && !o.Prepared && !(g.noInterp && len(o.Args) > 0) {
 			o = g.sel(false) // a locking read with an xid context inside a transaction begun without one: not generated (docs)
 		}
 		return o
@@ -338,7 +354,7 @@ func params(r *hutil.Rng) string {
 
 // GenOutside: programs without any global transaction.
 func GenOutside(r *hutil.Rng, i int) Program {
-	g := &sgen{r: r}
+	g := &sgen{r: r, faults: i%2 == 1}
 	return Program{Setup: setup(r), Params: params(r), Segs: []Segment{{Ops: g.outsideOps(4 + r.Intn(10))}}}
 }
 
